@@ -8,8 +8,8 @@ CONSTANTS
  Flag = TRUE
  Tps = 1
  Off = 0
- MaxTick = 5
- MaxSubs = 4
+ MaxTick = 6
+ MaxSubs = 5
  MaxErr = 1
 INVARIANTS Safety
 VIEW View
